@@ -2,7 +2,7 @@
    process and assumed-name declarations (on the declarative judgement). *)
 Require Import Grits.Base Grits.ModeDefs Grits.Modes Grits.STypes Grits.Forms Grits.Subst Grits.Infer
                Grits.TcDeps Grits.Expand Grits.Tc Grits.spec.Typing Grits.proofs.TcLemmas Grits.proofs.UseMap
-               Grits.proofs.TypingSoundTop.
+               Grits.proofs.TypingSoundTop Grits.proofs.Acyclic.
 Require Import Coq.Sorting.Permutation.
 
 Lemma Forall2_perm {A B} (R : A -> B -> Prop) l1 l1' : Permutation l1 l1' -> forall l2, Forall2 R l1 l2 ->
@@ -158,13 +158,9 @@ Proof.
 Qed.
 
 (* ---------------------------------------------------------------- programs *)
-(* The last conjunct says that the acyclicity test gives the same answer on the permuted list of
-   processes.  It holds trivially when the processes keep their order; that it holds for EVERY
-   permutation (the test is a property of the dependency graph) is proofs/Acyclic.v's business. *)
 Definition decl_perm (p p' : program) : Prop :=
   p_types p' = p_types p /\ Permutation (p_funs p) (p_funs p') /\
-  Permutation (p_procs p) (p_procs p') /\ Permutation (p_assumed p) (p_assumed p') /\
-  deps_acyclic (p_procs p') = deps_acyclic (p_procs p).
+  Permutation (p_procs p) (p_procs p') /\ Permutation (p_assumed p) (p_assumed p').
 
 Lemma sig_of_names D fs Sg : Forall2 (sig_of D) fs Sg -> map fs_name Sg = map fn_name fs.
 Proof. induction 1 as [|f s l l' [E _] _ IH]; cbn; auto. now rewrite E, IH. Qed.
@@ -180,7 +176,7 @@ Qed.
 
 Theorem typing_perm_e pe pe' : decl_perm pe pe' -> ProgOKe teq pe -> ProgOKe teq pe'.
 Proof.
-  intros [ET [PF [PP [PA PAC]]]] [SD NF [Sg [SO [FO PO]]] NA TA NP DJ U1 U2 U3 AC].
+  intros [ET [PF [PP PA]]] [SD NF [Sg [SO [FO PO]]] NA TA NP DJ U1 U2 U3 AC].
   destruct (Forall2_perm _ _ _ PF _ SO) as [Sg' [SO' PS]].
   assert (NS : NoDup (map fs_name Sg)) by (rewrite (sig_of_names _ _ _ SO); exact NF).
   pose proof (sig_lookup_perm _ _ PS NS) as EXT.
@@ -212,25 +208,23 @@ Proof.
     + right. eapply Permutation_in; eauto.
   - intros x Hx. eapply Permutation_in; [exact PU|]. apply U3.
     eapply Permutation_in; [apply Permutation_sym; exact PAi|exact Hx].
-  - now rewrite PAC.
+  - now rewrite (deps_acyclic_perm _ _ NP PP).
 Qed.
 
 Theorem typing_perm p p' : decl_perm p p' -> ProgOK teq p -> ProgOK teq p'.
 Proof.
-  intros [ET [PF [PP [PA PAC]]]] [pe [[ETe [EF [EP EA]]] OK]].
+  intros [ET [PF [PP PA]]] [pe [[ETe [EF [EP EA]]] OK]].
   destruct (Forall2_perm _ _ _ PF _ EF) as [fs' [EF' PF']].
   destruct (Forall2_perm _ _ _ PP _ EP) as [ps' [EP' PP']].
   destruct (Forall2_perm _ _ _ PA _ EA) as [as' [EA' PA']].
   exists {| p_procs := ps'; p_assumed := as'; p_funs := fs'; p_types := p_types pe |}. split.
   - repeat split; cbn; rewrite ?ET; auto.
   - eapply typing_perm_e; [|exact OK].
-    split; [reflexivity|]. split; [exact PF'|]. split; [exact PP'|]. split; [exact PA'|]. cbn [p_procs].
-    rewrite (deps_acyclic_shape _ _ (elab_procs_shape _ _ _ EP')), (deps_acyclic_shape _ _ (elab_procs_shape _ _ _ EP)).
-    exact PAC.
+    split; [reflexivity|]. split; [exact PF'|]. split; [exact PP'|]. exact PA'.
 Qed.
 
 Lemma decl_perm_sym p p' : decl_perm p p' -> decl_perm p' p.
-Proof. intros [E [A [B [C F]]]]. repeat split; auto using Permutation_sym. Qed.
+Proof. intros [E [A [B C]]]. repeat split; auto using Permutation_sym. Qed.
 
 Corollary typing_perm_iff p p' : decl_perm p p' -> (ProgOK teq p <-> ProgOK teq p').
 Proof. intros H. split; apply typing_perm; auto using decl_perm_sym. Qed.
